@@ -102,16 +102,17 @@ def made_harnesses(tier):
                 (3, 3, 1, False, True, 1, None, False, True)]
     else:
         grid = []
-        for D in (1, 2, 3, 4, 5):
-            for H in (2, 4, 6):
-                for blocks in (0, 1, 2, 3):
-                    for residual in (False, True):
-                        for rnd in (False, True):
-                            for m in (1, 3):
-                                for ctxf, bn, train in ((None, False, False), (2, True, True)):
-                                    if (D + H + blocks) % 2 == 0 or D >= 4 and rnd and blocks > 1 and H > 4:
-                                        continue
-                                    grid.append((D, H, blocks, residual, rnd, m, ctxf, bn, train))
+        import itertools as _it
+        k = 0
+        for D, H, blocks, residual, rnd, m, (ctxf, bn, train) in _it.product((1, 2, 3, 4), (2, 4, 6), (0, 1, 2), (False, True), (False, True), (1, 3),
+                                                                              ((None, False, False), (2, True, True))):
+            k += 1
+            if k % 7 not in (0, 3):      # a deterministic 2/7 sample of the full product (about 160 architectures per copy)
+                continue
+            if rnd and D >= 4 and H >= 6 and blocks >= 2:
+                continue
+            grid.append((D, H, blocks, residual, rnd, m, ctxf, bn, train))
+        grid.append((5, 4, 1, False, True, 1, None, False, False)); grid.append((5, 6, 2, True, False, 2, 2, False, False))
     for copy in ("transforms", "nde"):
         for g in grid:
             hs.append(made_harness(copy, *g))
